@@ -175,14 +175,14 @@ func copyTree(src, dst string) error {
 		rel, _ := filepath.Rel(src, path)
 		if info.IsDir() {
 			switch filepath.Base(path) {
-			case ".git", "testdata", "docs", "node_modules", "man", "HomebrewFormula", ".github":
+			case ".git", "testdata", "docs", "node_modules", "man", "HomebrewFormula":
 				if rel != "." {
 					return filepath.SkipDir
 				}
 			}
 			return os.MkdirAll(filepath.Join(dst, rel), 0o755)
 		}
-		if !(strings.HasSuffix(path, ".go") || info.Name() == "go.mod" || info.Name() == "go.sum") {
+		if !(strings.HasSuffix(path, ".go") || info.Name() == "go.mod" || info.Name() == "go.sum" || info.Name() == "actionlint-matcher.json") {
 			return nil
 		}
 		in, err := os.Open(path)
